@@ -32,8 +32,9 @@ pub fn verif_ttl_ms(c: &ZmtpEngineConfig) -> u16 { unimplemented!() }
 // R8: `socket_type_name_from_code(b).map(String::from)`
 #[verifier::external_body]
 pub fn verif_empty_slice() -> (r: &'static [u8]) ensures r@ =~= Seq::<u8>::empty() { unimplemented!() }
+pub uninterp spec fn stype_name(code: u8) -> Option<String>;
 #[verifier::external_body]
-pub fn verif_stype_name_owned(code: u8) -> Option<String> { unimplemented!() }
+pub fn verif_stype_name_owned(code: u8) -> (r: Option<String>) ensures r == stype_name(code) { unimplemented!() }
 
 // ---- greeting.rs / security/mod.rs callees as contract stand-ins (their own units: greeting, compat, negotiate)
 // std::time::Instant::duration_since saturates at zero
@@ -57,6 +58,10 @@ impl ZmtpGreeting {
       old(buffer)@.len() >= 64 ==> !(r matches Ok(None)) && final(buffer)@ == old(buffer)@.subrange(64, old(buffer)@.len() as int),
   { unimplemented!() }
 }
+// C05: "peer socket type is a valid pairing for the local one" -- established only by a compatibility check
+// (validate_v2_compatibility establishes it on the ZMTP/2.0 path); nothing establishes it on the ZMTP/3.x path today
+pub uninterp spec fn pairing_checked(c: ZmtpEngineConfig, peer_type: Option<String>) -> bool;
+
 // which mechanisms the local configuration admits; NULL only when no security mechanism is configured
 pub open spec fn allowed_kind(c: ZmtpEngineConfig, k: MechKind) -> bool {
   match k {
@@ -108,6 +113,7 @@ impl ZmtpEngine {
     &&& (self.phase == ZmtpPhase::Ready ==> self.version == Some(ZmtpVersion::V3)
           && (self.pending_framer matches Some(f) && (f.origin_complete() && allowed_kind(*self.config, f.origin_kind()))))
     &&& (self.phase == ZmtpPhase::Data ==> self.auth_ok())
+    &&& (self.version == Some(ZmtpVersion::V2) ==> pairing_checked(*self.config, self.v2_peer_socket_type))
   }
   // C04: when a handler returns in the Data phase nothing decodable is left behind in the accumulator
   pub open spec fn drained(&self) -> bool {
@@ -132,7 +138,7 @@ def handler_post(extra=(), hs_frame=True):
     ("C04:leftover_bytes_drained_in_same_call", "final(self).drained()"),
   ] + list(extra)
 
-HS_FRAME = ("C05:handshake_flags_frame", "final(self).revision_sent == old(self).revision_sent && final(self).version == old(self).version && final(self).is_server == old(self).is_server")
+HS_FRAME = ("C05:handshake_flags_frame", "final(self).revision_sent == old(self).revision_sent && final(self).version == old(self).version && final(self).is_server == old(self).is_server && final(self).v2_peer_socket_type == old(self).v2_peer_socket_type")
 
 PD_INV_FRAME = ("self.version == old(self).version && self.config == old(self).config && self.framer.origin_kind() == old(self).framer.origin_kind() "
                 "&& self.framer.origin_complete() == old(self).framer.origin_complete()")
@@ -145,6 +151,7 @@ parts = [
   Raw("prelude/framebatch.rs"),
   Raw("prelude/zmtp_spec.rs"),
   Raw("prelude/command_spec.rs"),
+  Raw("prelude/time.rs"),
   Raw("prelude/engine_env.rs"),
   Item(GR, "const", "GREETING_LENGTH"),
   Item(GR, "const", "MECHANISM_LENGTH"),
@@ -185,7 +192,10 @@ parts = [
               ("C07:reports_peer_error", "final(out).app_actions@ == old(out).app_actions@.push(AppAction::PeerError(err)) && final(out).net_actions@ == old(out).net_actions@"),
               ("C06:frame", "final(self).version == old(self).version && final(self).framer == old(self).framer && final(self).config == old(self).config && final(self).partial_batch == old(self).partial_batch "
                             "&& final(self).network_read_accumulator == old(self).network_read_accumulator && final(self).pending_framer == old(self).pending_framer && final(self).security_mechanism == old(self).security_mechanism")]),
-  Fn(EN, "validate_v2_compatibility", impl=IMPL, emit_impl="impl ZmtpEngine", contract_only=True),
+  # ZMTP/2.0 compatibility check (string matching: decided by the Kani harness vk_v2_compat_table); here only its role:
+  # an Ok verdict is what establishes "pairing checked" for the peer's socket-type byte
+  Fn(EN, "validate_v2_compatibility", impl=IMPL, emit_impl="impl ZmtpEngine", contract_only=True,
+     ensures=[("C05:ok_establishes_pairing", "r is Ok ==> pairing_checked(*self.config, stype_name(peer_byte))")]),
   Fn(EN, "activate_pending_framer", impl=IMPL, emit_impl="impl ZmtpEngine",
      ensures=[HS_FRAME, ("C06:swaps_in_the_pending_framer", "old(self).pending_framer matches Some(f) ==> final(self).framer == f && final(self).pending_framer is None"),
               ("C06:noop_without_pending", "old(self).pending_framer is None ==> final(self).framer == old(self).framer && final(self).pending_framer is None"),
@@ -231,7 +241,7 @@ parts = [
          ("C19:loop_liveness", "self.new_frames(old(self).framer.read_log()).len() > 0 ==> !self.waiting_for_pong"),
          PD_INV_FRAME,
          "self.phase == old(self).phase", "old(self).phase == ZmtpPhase::Data", "old(self).inv()",
-         "self.revision_sent == old(self).revision_sent && self.is_server == old(self).is_server",
+         "self.revision_sent == old(self).revision_sent && self.is_server == old(self).is_server && self.v2_peer_socket_type == old(self).v2_peer_socket_type",
          "extends(old(out).app_actions@, out.app_actions@)",
          "old(self).auth_ok()", "n_gated(old(out).app_actions@) > 0 ==> old(self).auth_ok()",
        ],
@@ -252,7 +262,9 @@ parts = [
        ("R8", re.compile(r"self\s*\.config\s*\.routing_id\s*\.as_ref\(\)\s*\.map_or_else\(Vec::new, \|id\| id\.as_ref\(\)\.to_vec\(\)\)", re.S), "verif_routing_id_bytes(&self.config)", 1),
        ("R5", "crate::Msg::from_vec", "Msg::from_vec", 1),
      ],
-     hints=[("bc", "@fn_start", 0, "", "broadcast use lemma_delivered_push, lemma_sends_push, lemma_n_gated_push;")]),
+     hints=[("bc", "@fn_start", 0, "", "broadcast use lemma_delivered_push, lemma_sends_push, lemma_n_gated_push;"),
+            ("C05:v2_socket_type_checked_before_completion", "re:out\\.app_actions\\.push\\(AppAction::HandshakeComplete \\{", 0, "before",
+             "proof { assert(pairing_checked(*self.config, self.v2_peer_socket_type)); }")]),
   Fn(EN, "process_ready", impl=IMPL, emit_impl="impl ZmtpEngine", safety_props=["C02", "C04", "C06", "C07"],
      requires=["n_gated(old(out).app_actions@) > 0 ==> old(self).auth_ok()", "old(self).inv()", "old(self).phase == ZmtpPhase::Ready"],
      ensures=handler_post(),
@@ -261,9 +273,12 @@ parts = [
        ("R8", re.compile(r"ready_cmd\s*\.properties\s*\.get\(\"Identity\"\)\s*\.map\(\|v\| Blob::from\(v\.clone\(\)\)\)", re.S), "verif_ready_identity(&ready_cmd)", 1),
      ],
      loops={0: {
-       "invariant": ["n_gated(old(out).app_actions@) > 0 ==> old(self).auth_ok()", "old(self).auth_ok() ==> self.auth_ok()", "self.revision_sent == old(self).revision_sent && self.version == old(self).version && self.is_server == old(self).is_server", "self.inv()", "self.phase == ZmtpPhase::Ready", "self.config == old(self).config", "out.app_actions@ == old(out).app_actions@"],
+       "invariant": ["n_gated(old(out).app_actions@) > 0 ==> old(self).auth_ok()", "old(self).auth_ok() ==> self.auth_ok()", "self.revision_sent == old(self).revision_sent && self.version == old(self).version && self.is_server == old(self).is_server && self.v2_peer_socket_type == old(self).v2_peer_socket_type", "self.inv()", "self.phase == ZmtpPhase::Ready", "self.config == old(self).config", "out.app_actions@ == old(out).app_actions@"],
        "decreases": "self.framer.budget(self.network_read_accumulator@)"}},
-     hints=[("bc", "@loop_start:0", 0, "", "broadcast use lemma_delivered_push, lemma_sends_push, lemma_n_gated_push;")]),
+     hints=[("bc", "@loop_start:0", 0, "", "broadcast use lemma_delivered_push, lemma_sends_push, lemma_n_gated_push;"),
+            # C05 known finding: the READY handler reports completion without validating the peer's Socket-Type
+            ("C05:KF_v3_socket_type_checked_before_completion", "re:out\\.app_actions\\.push\\(AppAction::HandshakeComplete \\{", 0, "before",
+             "proof { assert(pairing_checked(*self.config, peer_socket_type)); }")]),
   Fn(EN, "emit_security_token", impl=IMPL, emit_impl="impl ZmtpEngine", safety_props=["C02", "C04", "C06", "C07"],
      requires=["n_gated(old(out).app_actions@) > 0 ==> old(self).auth_ok()", "old(self).inv()", "old(self).phase == ZmtpPhase::Security"],
      ensures=[HS_FRAME, 
@@ -293,7 +308,7 @@ parts = [
      ensures=handler_post(),
      extra=[("R2", re.compile(r"self\s*\.security_mechanism\s*\.error_reason\(\)\s*\.unwrap_or\(\"unknown\"\)\s*\.to_owned\(\)", re.S), "verif_fmt()", 1)],
      loops={0: {
-       "invariant": ["n_gated(old(out).app_actions@) > 0 ==> old(self).auth_ok()", "old(self).auth_ok() ==> self.auth_ok()", "self.revision_sent == old(self).revision_sent && self.version == old(self).version && self.is_server == old(self).is_server", "self.inv()", "self.phase == ZmtpPhase::Security", "self.config == old(self).config",
+       "invariant": ["n_gated(old(out).app_actions@) > 0 ==> old(self).auth_ok()", "old(self).auth_ok() ==> self.auth_ok()", "self.revision_sent == old(self).revision_sent && self.version == old(self).version && self.is_server == old(self).is_server && self.v2_peer_socket_type == old(self).v2_peer_socket_type", "self.inv()", "self.phase == ZmtpPhase::Security", "self.config == old(self).config",
                      "extends(old(out).app_actions@, out.app_actions@)",
                      "n_gated(out.app_actions@) == n_gated(old(out).app_actions@)",
                      "deliveries_complete(old(out).app_actions@) ==> deliveries_complete(out.app_actions@)"],
